@@ -167,6 +167,24 @@ func derivedSetBody(s *simrt.Sim) {
 	}
 
 	d := rx.NewDerivedSet[int]()
+	// a subscriber of the derived set itself folds what it is told (C13: folding the reported mutations reproduces the
+	// contents), and optionally somebody writes to the derived set directly (element 100 is in no source)
+	mirror := ds.NewSet[int]()
+	d.OnUpdate(func(m ds.SetMutations[int]) {
+		a, dl := mutSlices(m)
+		mirror.Apply(ds.NewSetMutations(a...).WithDeletedElements(ds.NewSet(dl...)))
+	})
+	directDone := false
+	if s.Choose(3) == 2 {
+		dd := s.Choose(6)
+		s.Go("directwriter", func() {
+			yields(dd)
+			s.Logf("derived.Add(100)")
+			d.Add(100)
+			directDone = true
+			r.hit("direct-write-to-the-derived-set", true)
+		})
+	}
 	type link struct {
 		name   string
 		srcs   []int
@@ -254,9 +272,15 @@ func derivedSetBody(s *simrt.Sim) {
 			desc += fmt.Sprintf(" %s:src%d=%s", l.name, k, fmtInts(contents(k)))
 		}
 	}
+	if directDone {
+		want = append(want, 100)
+	}
 	want = sortedInts(want)
 	got := sortedInts(d.ToSlice())
 	s.Logf("derived %s want %s", fmtInts(got), fmtInts(want))
+	if folded := sortedInts(mirror.ToSlice()); !eqInts(folded, got) {
+		s.Fail("fold", "derived-set-subscriber", "folding the mutations reported to a subscriber of the DerivedSet gives %v but the set holds %v", folded, got)
+	}
 	if !eqInts(got, want) {
 		s.Fail("derived-set", "differs-from-union-of-sources"+suffix(), "DerivedSet = %v, union of the inherited sources = %v;%s", got, want, desc)
 	}
